@@ -198,7 +198,6 @@ theorem comboExtend_run (grow : Grow) (src : Slice) (pair : KV) (st : Store) (h 
   simp only [extendWith, Gen.SubsetSlice.comboExtend, Gen.SubsetSlice.comboResult, List.foldl_cons, List.foldl_nil,
     step, evalI, evalS, initEnv, setVar, if_true, hmax, Nat.zero_ne_one, Nat.one_ne_zero, if_false, appendSl,
     Nat.le_refl, List.length_singleton]
-  have e1 : (if (1 : Nat) = 0 then src else Slice.nil) = Slice.nil := by simp
   simp only [hread1, arrayOf_append_last, set_append_last, hlen, Nat.min_self]
   have hdrop : (List.replicate (src.len + 1) zeroKV).drop src.len = [zeroKV] := by
     rw [List.drop_replicate]; simp
